@@ -147,7 +147,7 @@ def run(v, tier, seed, g):
             x, y = evaluate(raw, env), evaluate(r, env)
             if x is None or y is None:
                 continue
-            if abs(x - y) > 1e-12 * (1 + abs(x)):
+            if not (abs(x - y) <= 1e-12 * (1 + abs(x))):
                 bad_num += 1
                 v.violation(f"overload-value:{name}", f"{name}: simplified tree has value {y}, the operation {x}",
                             {"function": name, "a": str(a), "b": str(b), "env": str(env), "simplified": str(r)})
@@ -344,7 +344,7 @@ def c_search(ron, name, con, ep, nrng):
         runc.call_kernel(bb.kernel(name), A2, d["w"], d["c"], d["x"], d["e"], d["p"])
         scale = max(float(np.max(np.abs(A2))), 1e-3)
         rel = float(np.max(np.abs(A1 - A2))) / scale
-        if rel > 1e-9:
+        if not (rel <= 1e-9):      # NaN / inf in one of the two results counts as a difference
             return {"entity_local_index": ep[0], "quadrature_permutation": ep[1], "relative_difference": rel,
                     "A_with_passes": [float(np.real(x)) for x in A1[:12]], "A_without_passes": [float(np.real(x)) for x in A2[:12]],
                     "w": [float(np.real(x)) for x in d["w"][:12]], "coordinate_dofs": [float(x) for x in d["x"][:18]]}
